@@ -73,10 +73,11 @@ def _propagate_nan_values(
         else:
             failures |= constraint_failures
     if objective_results is not None:
-        objective_results = objective_results.copy()
+        # Copy, the evaluator may return arrays with an integer type:
+        objective_results = np.array(objective_results, dtype=np.float64)
         objective_results[failures, :] = np.nan
     if constraint_results is not None:
-        constraint_results = constraint_results.copy()
+        constraint_results = np.array(constraint_results, dtype=np.float64)
         constraint_results[failures, :] = np.nan
     return objective_results, constraint_results
 
